@@ -67,8 +67,17 @@ def rich_spaces(tier, depth_quick=3, depth_thorough=4, extra_ops=(), roots=None)
         Space(Cfg("domain"), ops, d, roots=roots or [al.R0, al.R2, al.R4], name="rich/domain"),
         Space(Cfg("never"), ops, d, roots=[al.R0], name="rich/never"),
         Space(Cfg("domain"), edit_ops(), 4 if thorough else 3, roots=[al.R2, al.R4], name="edits/domain"),
+        # webentity ids beyond 256 (260 creations first): the same linked state, other id values
+        Space(Cfg("domain"), [al.create(Ab), al.rmprefix(Ax), al.links((Sx, Ab), (Awx, Sx)), al.page(Awx), al.OBS], 2 if thorough else 1, roots=[(("create_many", Bb, 260),) + al.R2], name="large-ids/domain"),
         Space(Cfg("domain"), lifecycle_ops(), 5 if thorough else 4, roots=[al.R0], name="lifecycle/domain", dedup=False),
     ]
+
+
+def latin1_space(tier):
+    """A latin-1 index whose LRUs hold a non-ASCII letter, driven with str arguments."""
+    E1 = b"s:http|h:fr|h:caf\xe9|"
+    ops = [al.as_str(al.page(E1 + b"p:th\xe9|", True)), al.as_str(al.page(E1)), al.as_str(al.create(E1 + b"p:th\xe9|")), al.as_str(al.links((E1, E1 + b"p:th\xe9|"), (E1 + b"p:th\xe9|", E1 + b"p:x|"))), al.delete(0), al.page(Bb)]
+    return Space(Cfg("domain", encoding="latin-1", query_str=True), ops, 4 if tier == "thorough" else 3, name="latin-1+str/domain")
 
 
 class Ground(object):
